@@ -27,7 +27,9 @@ FAULTS = ["dangling", "fifo", "socket", "vanish", "dotdot..name", "dot.\\bs", "b
           # unservable entries whose names hold characters that mean something to string formatting (they reach log lines)
           "percent-dangling", "percent..name",
           # a side file that is there for stat and cannot be opened (not ours to read)
-          "noperm-sidecar"]
+          "noperm-sidecar",
+          # hidden entries whose names the filter rejects (Kubernetes-style ..data, editor leftovers)
+          "dotdot-dotfile"]
 OPEN_FAULTS = ("gone.html", "noperm.html", "noperm-sidecar")     # stat succeeds, the open that follows fails (deleted in between / not readable)
 
 
@@ -46,6 +48,11 @@ def plant(tree, d, fault):
         os.makedirs(os.path.join(base, b".cap"), exist_ok=True)
         os.mkfifo(os.path.join(base, b".cap", b"b.txt"))
         return ".cap"
+    if fault == "dotdot-dotfile":
+        tree.write(d + "/..data", b"hidden, and refused by the filter\n")
+        tree.write(d + "/.notes..bak", b"# an editor left this behind\n")
+        os.symlink("nowhere-to-be-found", os.path.join(base, b".lock..tmp"))
+        return "..data"
     if fault == "cache-fifo":
         os.mkfifo(os.path.join(base, b".cache.pygopherd.dir"))
         return ".cache.pygopherd.dir"
